@@ -233,16 +233,44 @@ structure TBSys where
   b : Bucket
   granted : Int
 
-/-- time passes, or some caller (any instance, any goroutine) executes one `TryAcquireN(n)` -/
+/-- time passes, some caller (any instance, any goroutine) executes one `TryAcquireN(n)`, or the schema is
+    synced again: `Resize(qps, burst)` (atomic as well: it takes the same mutex) -/
 inductive TBStep where
   | tick (d : Nat)
   | tryAcquire (n : Int)
+  | resize (qps burst : Int)
 
 def tbStep (s : TBSys) : TBStep → TBSys
   | .tick d => { s with clock := s.clock + d }
   | .tryAcquire n =>
     let r := allowN s.b s.clock n
     { s with b := r.1, granted := s.granted + granted r.2 n }
+  | .resize q bu => { s with b := (bucketResize s.b q bu).1 }
+
+/-- a `Resize` that is no reconfiguration of this bucket: same qps, same burst (what every re-sync of the
+    cluster's spec after an edit of ANOTHER schema does) -/
+def SameParams (qps burst : Int) : TBStep → Prop
+  | .resize q bu => q = qps ∧ bu = burst
+  | _ => True
+
+/-- acquisitions (token-bucket arm of `DoAcquire`) interleaved with `Resize` calls, sequentially -/
+inductive TBOp where
+  | acquire (nows : List Int) (ask : Int)
+  | resize (qps burst : Int)
+
+def runTBOps (b : Bucket) : List TBOp → Bucket × Int
+  | [] => (b, 0)
+  | .acquire nows ask :: rest =>
+    let r := tbLoop b ask nows
+    let s := runTBOps r.1 rest
+    (s.1, r.2.2 + s.2)
+  | .resize q bu :: rest => runTBOps (bucketResize b q bu).1 rest
+
+/-- the acquisitions of an op list -/
+def acquisitions : List TBOp → List (List Int × Int)
+  | [] => []
+  | .acquire nows ask :: rest => (nows, ask) :: acquisitions rest
+  | .resize _ _ :: rest => acquisitions rest
 
 def tbRun (s : TBSys) (steps : List TBStep) : TBSys := steps.foldl tbStep s
 
